@@ -30,6 +30,13 @@ type sg struct {
 	sb     *strings.Builder
 	nextID int
 	scopes [][]decl // visible declarations, innermost last
+	// passed[i] = names of references written so far that resolve OUTSIDE frame i although their text lies
+	// inside it (in the frame itself or in a nested one). Declaring such a name in frame i later would
+	// capture those references (let/const/class: temporal dead zone, and an earlier `x = …` becomes an
+	// assignment to a constant, which esbuild refuses when bundling — documented; function: hoisted over
+	// them), so the scope model of this generator would no longer describe the program. Declarations
+	// written after the start of a frame therefore never take a name from this set (freshName).
+	passed []map[string]bool
 	fnDepth int
 	allowEval, allowWith bool
 	props  bool // use mangle-able property names
@@ -79,11 +86,25 @@ func (g *sg) declaredHere(name string) bool {
 func (g *sg) freshName() string {
 	for tries := 0; tries < 6; tries++ {
 		n := pool[g.intn(len(pool), "name")]
-		if !g.declaredHere(n) {
+		if !g.declaredHere(n) && !g.passed[len(g.passed)-1][n] {
 			return n
 		}
 	}
 	return fmt.Sprintf("v%d", g.id())
+}
+
+// use records a reference to name written at the current position: every frame between the current one
+// and the frame that declares the name (exclusive) is passed through by it.
+func (g *sg) use(name string) string {
+	for i := len(g.scopes) - 1; i >= 0; i-- {
+		for _, d := range g.scopes[i] {
+			if d.name == name {
+				return name
+			}
+		}
+		g.passed[i][name] = true
+	}
+	return name
 }
 
 func (g *sg) val() string { return fmt.Sprintf("\"D%d_f%d\"", g.id(), g.file) }
@@ -106,7 +127,7 @@ func (g *sg) refs() {
 		switch {
 		case len(vis) > 0 && g.chance(70, "local"):
 			d := vis[g.intn(len(vis), "ref")]
-			g.w("log(\"r%d\", %s); ", g.id(), d.name)
+			g.w("log(\"r%d\", %s); ", g.id(), g.use(d.name))
 		default:
 			fg := freeGlobals[g.intn(len(freeGlobals), "free")]
 			shadowed := false
@@ -123,13 +144,19 @@ func (g *sg) refs() {
 	if vis := g.visible(); len(vis) > 0 && g.chance(30, "assign") {
 		d := vis[g.intn(len(vis), "assignee")]
 		if !d.constant {
-			g.w("%s = \"A%d\"; ", d.name, g.id())
+			g.w("%s = \"A%d\"; ", g.use(d.name), g.id())
 		}
 	}
 }
 
-func (g *sg) push() { g.scopes = append(g.scopes, nil) }
-func (g *sg) pop()  { g.scopes = g.scopes[:len(g.scopes)-1] }
+func (g *sg) push() {
+	g.scopes = append(g.scopes, nil)
+	g.passed = append(g.passed, map[string]bool{})
+}
+func (g *sg) pop() {
+	g.scopes = g.scopes[:len(g.scopes)-1]
+	g.passed = g.passed[:len(g.passed)-1]
+}
 
 func (g *sg) body(depth int, fnBody bool) {
 	kinds := []string{"let", "const"}
@@ -144,7 +171,7 @@ func (g *sg) body(depth int, fnBody bool) {
 	n := 1 + g.intn(3, "nnested")
 	for i := 0; i < n; i++ {
 		switch g.intn(12, "nest") {
-		case 0: // function declaration, called after
+		case 0: // function declaration, called after or (hoisting) before its text
 			if !fnBody && g.sloppy {
 				// a function declaration inside a block of sloppy code has Annex B hoisting semantics that
 				// depend on what else is named like it; that is C13's subject (two known findings there)
@@ -155,13 +182,25 @@ func (g *sg) body(depth int, fnBody bool) {
 			g.push()
 			p1 := g.freshName()
 			g.scopes[len(g.scopes)-1] = append(g.scopes[len(g.scopes)-1], decl{p1, false})
+			// the declaration is hoisted to the start of its scope: some calls are written BEFORE the
+			// declaration's text (everything the body can see is declared and initialised before that point
+			// too; no earlier reference in this scope uses the name — see passed)
+			early := g.chance(30, "callbefore")
+			outer := g.sb
+			g.sb = &strings.Builder{}
 			g.w("function %s(%s) { ", name, p1)
 			g.fnDepth++
 			g.body(depth-1, true)
 			g.fnDepth--
 			g.w("} ")
 			g.pop()
-			g.w("%s(\"P%d\"); ", name, g.id())
+			text := g.sb.String()
+			g.sb = outer
+			if early {
+				g.w("%s(\"P%d\"); %s", name, g.id(), text)
+			} else {
+				g.w("%s%s(\"P%d\"); ", text, name, g.id())
+			}
 		case 1: // arrow IIFE with default-parameter closure
 			g.push()
 			p1, p2 := g.freshName(), ""
@@ -220,7 +259,7 @@ func (g *sg) body(depth int, fnBody bool) {
 			var parts []string
 			for k := 0; k < len(vis) && k < 3; k++ {
 				if vis[k].name != cl {
-					parts = append(parts, vis[k].name)
+					parts = append(parts, g.use(vis[k].name))
 				}
 			}
 			g.w("const %s = () => [%s]; ", cl, strings.Join(parts, ", "))
@@ -229,17 +268,15 @@ func (g *sg) body(depth int, fnBody bool) {
 		case 8: // label with the same spelling as a variable
 			vis := g.visible()
 			if len(vis) > 0 {
-				l := vis[g.intn(len(vis), "label")].name
-				if l != "$" || true {
-					g.w("%s: { log(\"l%d\", %s); break %s; } ", l, g.id(), l, l)
-				}
+				l := g.use(vis[g.intn(len(vis), "label")].name)
+				g.w("%s: { log(\"l%d\", %s); break %s; } ", l, g.id(), l, l)
 			}
 		case 9: // direct eval pins every visible name
 			if g.allowEval {
 				vis := g.visible()
 				if len(vis) > 0 {
 					d := vis[g.intn(len(vis), "evalname")]
-					g.w("log(\"ev%d\", eval(\"%s\")); ", g.id(), d.name)
+					g.w("log(\"ev%d\", eval(\"%s\")); ", g.id(), g.use(d.name))
 				}
 			}
 		case 10: // with statement
@@ -251,7 +288,7 @@ func (g *sg) body(depth int, fnBody bool) {
 					if strings.HasSuffix(prop, "_") {
 						prop = "wp" // a with-object key that matches the mangle-props pattern would be reflected on by name
 					}
-					g.w("with ({ %s: \"W%d\" }) { log(\"w%d\", %s, typeof %s); } ", prop, g.id(), g.id(), d.name, prop)
+					g.w("with ({ %s: \"W%d\" }) { log(\"w%d\", %s, typeof %s); } ", prop, g.id(), g.id(), g.use(d.name), g.use(prop))
 				}
 			}
 		case 11: // mangle-able properties
@@ -504,7 +541,7 @@ func genFile(rt *rapid.T, file int, depth int, eval, with, props bool) (string, 
 }
 
 func runSingle(t *testing.T) {
-	H.Rule("single", "rapid: one file of nested scopes (functions with default-parameter closures, arrows, blocks, for-let with captured closures, catch bindings, classes, named function expression self-bindings, labels spelled like variables, deferred closures, direct eval and with in sloppy files, mangle-able properties) whose declared names come from a pool built to collide (the minifier's first names a b e t n r i o $ _, numbered suffixes x2 _a, free globals with the same spellings defined by the host); every declaration holds a unique value, every reference is logged × format {none, iife, cjs, esm} × minify-identifiers / full minify / keep-names × mangle-props with and without a supplied cache. Oracle: V8 is the resolver — trace of the source == trace of the renamed output; for wrapper-less scripts the top-level names are read back from the global object; mangle cache is a bijection containing the supplied cache. Non-trivial = ≥4 events and the output differs from the input")
+	H.Rule("single", "rapid: one file of nested scopes (functions with default-parameter closures, arrows, blocks, for-let with captured closures, catch bindings, classes, named function expression self-bindings, labels spelled like variables, deferred closures, direct eval and with in sloppy files, mangle-able properties) whose declared names come from a pool built to collide (the minifier's first names a b e t n r i o $ _, numbered suffixes x2 _a, free globals with the same spellings defined by the host); every declaration holds a unique value, every reference is logged; a declaration written in the middle of a scope (function — sometimes called before its text —, class, const closure) never takes a name that an earlier reference lying in that scope resolved further out: it would capture that reference (temporal dead zone; an earlier assignment becomes an assignment to a constant, which esbuild documents as a build error when bundling, not a renaming matter), so the generator's scope model would no longer describe the program × format {none, iife, cjs, esm} × minify-identifiers / full minify / keep-names × mangle-props with and without a supplied cache. Oracle: V8 is the resolver — trace of the source == trace of the renamed output; for wrapper-less scripts the top-level names are read back from the global object; mangle cache is a bijection containing the supplied cache. Non-trivial = ≥4 events and the output differs from the input")
 	H.SetupRapid("single", H.N(8000, 300000))
 	rapid.Check(t, func(rt *rapid.T) {
 		c := Case{}
